@@ -1,4 +1,14 @@
 """Which specification instances and driver modes decide which property, per tier."""
+import os as _os
+
+
+def owns(prop, owner):
+    """does this check report an observation tagged with the property / set of properties `owner`?  VERIF_ANYPROP (false-alarm runs on
+    property-preserving changes): one run reports the observations of every property its replay serves."""
+    if _os.environ.get('VERIF_ANYPROP'):
+        return True
+    return prop in owner if isinstance(owner, (set, list, tuple)) else prop == owner
+
 import os
 
 # ------------------------------------------------------------------------------------------------ Tree.tla
@@ -300,7 +310,7 @@ def numobs_check(prop, path, outdir):
         ei = 2147483647 if d >= 2147483647 else (-2147483648 if d <= -2147483648 else int(d))
         if eb != int(bits, 16) or ei != int(iv):
             bad += 1
-            if prop == 'C02' and bad <= 5:
+            if owns(prop, 'C02') and bad <= 5:
                 rp = os.path.join(outdir, 'C02-num-%d.case' % bad)
                 open(rp, 'w').write('# number literal %s: parsed to bits %s valueint %s, correctly rounded is %016x valueint %d\n' % (lex, bits, iv, eb, ei))
                 out.append('VIOLATION property=C02 replay=%s :: number literal %s decoded to %s (int %s), expected %016x (int %d)' % (rp, lex, bits, iv, eb, ei))
@@ -325,7 +335,7 @@ def textcheck(prop, path, outdir, V):
     out, n = [], 0
     for m in re.finditer(r'<<"V", (\d+), (TRUE|FALSE)>>', r.stdout):
         n += 1
-        if m.group(2) == 'FALSE' and prop == 'C05' and len(out) < 10:
+        if m.group(2) == 'FALSE' and owns(prop, 'C05') and len(out) < 10:
             i = int(m.group(1))
             rp = os.path.join(outdir, 'C05-text-%d.case' % i)
             open(rp, 'w').write(lines[i - 1] + '\n')
@@ -355,7 +365,7 @@ def utilcheck(prop, path, outdir, V):
         n += 1
         if m.group(2) == 'FALSE':
             i = int(m.group(1)); rec = json.loads(lines[i - 1]); owner = {'patch': 'C17', 'merge': 'C18', 'sort': 'C19'}.get(rec['k'], 'C17')
-            if prop == owner and len(out) < 10:
+            if owns(prop, owner) and len(out) < 10:
                 rp = os.path.join(outdir, '%s-record-%d.case' % (owner, i))
                 open(rp, 'w').write(lines[i - 1] + '\n')
                 out.append(('VIOLATION property=%s replay=%s :: the recorded order after sorting is not a sorted permutation of the members (judged by MC_UtilCheck): %s' % (owner, rp, lines[i - 1][:300])) if owner == 'C19' else 'VIOLATION property=%s replay=%s :: the generated %s does not transform from into to under the declarative RFC evaluator: %s' % (owner, rp, 'patch' if owner == 'C17' else 'merge patch', lines[i - 1][:240]))
@@ -441,8 +451,25 @@ def run_c20(prop, run, outdir, bins, seed, V, REPO):
                 suspects.setdefault(sym, f)      # address taken: a store through the pointer cannot be seen statically; decided by the ThreadSanitizer runs
             else:
                 drift += 1
+    # C library functions reachable from the public functions: process-wide state behind a libc call is invisible to the object-level footprint.
+    # POSIX lists the functions that need not be thread-safe; a call to one of them (setlocale around strtod, strtok, rand, static-buffer
+    # conversions ...) makes calls on private data interfere.  localeconv is on that list too and is what ENABLE_LOCALES uses: the property's own
+    # condition "the locale is not changed" covers it.
+    MT_UNSAFE = {'setlocale', 'uselocale', 'strtok', 'rand', 'srand', 'random', 'srandom', 'drand48', 'lrand48', 'mrand48', 'srand48', 'asctime', 'ctime', 'gmtime', 'localtime', 'strerror',
+                 'strsignal', 'getenv', 'putenv', 'setenv', 'unsetenv', 'tmpnam', 'tempnam', 'ecvt', 'fcvt', 'gcvt', 'l64a', 'ttyname', 'getlogin', 'basename', 'dirname', 'readdir',
+                 'getpwnam', 'getpwuid', 'gethostbyname', 'inet_ntoa', 'nl_langinfo', 'wcstombs', 'mbstowcs', 'mblen', 'mbtowc', 'wctomb', 'catgets', 'crypt', 'dbm_fetch', 'lgamma',
+                 'lgammaf', 'lgammal', 'getopt', 'hsearch', 'hcreate', 'hdestroy', 'signal', 'atexit', 'exit', 'abort', 'system', 'fcloseall', 'tzset'}
+    ext_all = set()
+    for f, xs in sorted(ext.get('externals', {}).items()):
+        if f in EXCLUDED_FUNCS:
+            continue
+        ext_all |= set(xs)
+        for x in xs:
+            if x.lstrip('_') in MT_UNSAFE or x in MT_UNSAFE:
+                violation('%s reaches the C library function %s, which works on process-wide state (not safe while other threads use the library)' % (f, x), {f: xs})
+    res.setdefault('stats', {})
     newobjs = sorted(set(ext['inventory']) - KNOWN_OBJECTS)
-    res['samples'] = ['writable static objects: %s' % sorted(ext['inventory']), 'cJSON_Parse: %s' % ext['functions'].get('cJSON_Parse'),
+    res['samples'] = ['writable static objects: %s' % sorted(ext['inventory']), 'C library functions reached: %s' % sorted(ext_all), 'cJSON_Parse: %s' % ext['functions'].get('cJSON_Parse'),
                       'cJSON_Print: %s' % ext['functions'].get('cJSON_Print'), 'cJSONUtils_SortObject: %s' % ext['functions'].get('cJSONUtils_SortObject')]
     # (B2) real schedules under ThreadSanitizer
     drv = bins['tsan']
@@ -495,7 +522,7 @@ def run_tracetree(prop, run, outdir, bins, seed, V, REPO):
     trace = os.path.join(outdir, run['name'] + '.ndjson'); stats = os.path.join(outdir, run['name'] + '.stats.json')
     lib = run.get('lib')
     r = subprocess.run('%s treerand --prop %s --out %s --trace %s --stats %s --histories %d --steps %d --seed %d --nodes %d%s' %
-                       (bins['plain'], prop, outdir, trace, stats, run['histories'], run['steps'], seed, run.get('nodes', 10),
+                       (bins['plain'], 'C' if _os.environ.get('VERIF_ANYPROP') else prop, outdir, trace, stats, run['histories'], run['steps'], seed, run.get('nodes', 10),
                         (' --lib --focus %d' % run.get('focus', -1)) if lib else ''), shell=True, capture_output=True, text=True)
     out = [l for l in r.stdout.splitlines() if l.startswith('VIOLATION')]
     try:
@@ -569,7 +596,7 @@ def run_tracetree(prop, run, outdir, bins, seed, V, REPO):
                     owners.add('C19')
                 owners |= OWN.get(pa, set()) & {'C16', 'C17', 'C18'}
                 k -= 1
-        if prop in owners or (verdict[0] == 'inv' and not lib):
+        if owns(prop, owners) or (verdict[0] == 'inv' and not lib):
             rp = os.path.join(outdir, '%s-trace.case' % prop)
             open(rp, 'w').write('# trace %s, event %s\n%s\n' % (trace, idx, ev))
             what = ('invariant %s fails on the recorded heap' % verdict[1]) if verdict[0] == 'inv' else ('recorded step %d (%s) is not a step of Tree.tla: post-heap / result / query answers differ from every admitted outcome' % (idx, act))
